@@ -19,6 +19,10 @@ TABLE = [
     (S / "pool", "MC_Pool.tla", "MC_Pool_orig.cfg", "NoDeadlockB", "F2: stop() cleared the flag outside the queue mutex (FlagUnderMutex = FALSE): lost wake-up, stop() never returns"),
     (S / "pool", "MC_Pool.tla", "MC_Pool_origrace.cfg", "NoRace", "F2 as a data race on m_isRunning"),
     (S / "pool", "MC_Pool.tla", "MC_Pool_expiryrace.cfg", "NoRace", "F3: Thread::m_isFinished a plain bool (FinishedAtomic = FALSE)"),
+    (S / "pool", "PoolImplDev.tla", "NEG_Pool_none.cfg", "ok", "PoolImplDev with Deviation = none is PoolImpl (MC_Pool_quick's bounds), plus the action property RunOnlyWhileRunning"),
+    (S / "pool", "PoolImplDev.tla", "NEG_Pool_noclear.cfg", "C08Quiescent", "C08/C07: stop() no longer destroys the tasks that are still queued"),
+    (S / "pool", "PoolImplDev.tla", "NEG_Pool_stopone.cfg", "NoDeadlockD", "C08: stop() wakes one idle worker (notify_one) instead of all: a second idle worker sleeps on and join() never returns"),
+    (S / "pool", "PoolImplDev.tla", "NEG_Pool_queuefirst.cfg", "RunOnlyWhileRunning", "C07: the worker looks at the queue before the stop flag: a task starts running after stop() has cleared the flag"),
     (S / "pool", "ThreadStart.tla", "MC_ThreadStart_TRUE.cfg", "InvokedLive", "F4: Thread::start captured its callable by reference (ByRef = TRUE)"),
     (S / "pool", "ThreadStart.tla", "NEG_ThreadStart_noreset.cfg", "FinishedOnlyAfter", "F13: start() did not lower the finished flag of a Thread that is started again (ResetOnStart = FALSE)"),
     (S / "pool", "ThreadStart.tla", "MC_ThreadStart_restart.cfg", "ok", "two rounds on one Thread object with the flag lowered by start()"),
